@@ -3,6 +3,8 @@ CONSTANTS
     MaxBodyVals = {0, 3000}
     MaxReqVals = {0, 2000, 3000, 4000}
     MaxDecVals <- DecValsFull
+    OrderBases = {3000}
+    Gaps = {1, 500}
     Small = 1000
     Codings = {"none", "identity", "zstd", "gzip", "unknown", "list"}
     ZstdFrames = {"fcs", "nofcs", "multi", "multi_nofcs", "nofcs_bigwin", "corrupt"}
